@@ -44,4 +44,99 @@ def decGo : St → UInt8 → List UInt8 → List UInt8 → Res (List UInt8)
 /-- `UrlDecode(url_str)` -/
 def decode (s : List UInt8) : Res (List UInt8) := decGo .none 0 [] s
 
+/-! ### `Url::Host`: `UrlHostToString` / `StringToUrlHost` (user:password@host:port).
+The port text goes through `std::stoi` (an `int`) and is then stored in a `uint16_t`: the narrowing is part of the
+model (`toU16`). String positions are `size_t` (the code keeps one of them in an `int`, url.cpp:208 — a string of
+2^31 bytes is out of reach, positions are naturals here). -/
+
+structure Host where
+  user : List UInt8 := []
+  password : List UInt8 := []
+  host : List UInt8 := []
+  port : Nat := 0            -- uint16_t
+  deriving Repr, DecidableEq
+
+/-- `str.find_first_of(c)` -/
+def find (c : UInt8) : List UInt8 → Option Nat
+  | [] => none
+  | x :: r => if x = c then some 0 else (find c r).map (· + 1)
+
+/-- `str.find_first_of(c, from)` -/
+def findFrom (c : UInt8) (s : List UInt8) (from_ : Nat) : Option Nat := (find c (s.drop from_)).map (· + from_)
+
+/-- `UrlDecode` inside the `try`: `none` = it threw -/
+def decodeOpt (s : List UInt8) : Option (List UInt8) :=
+  match decode s with
+  | .ok o => some o
+  | _ => none
+
+def isSpace (c : UInt8) : Bool := c = 32 ∨ (9 ≤ c ∧ c ≤ 13)
+def isDigit (c : UInt8) : Bool := 48 ≤ c ∧ c ≤ 57
+def digitsVal (ds : List UInt8) : Nat := ds.foldl (fun a c => a * 10 + (c.toNat - 48)) 0
+
+/-- the optional sign of `strtol` -/
+def stoiSign : List UInt8 → Bool × List UInt8
+  | 45 :: t => (true, t)
+  | 43 :: t => (false, t)
+  | s => (false, s)
+
+/-- `std::stoi(text)`: skips `isspace`, one optional sign, then decimal digits; what follows the digits is ignored.
+`none` = throws (`invalid_argument` without a digit, `out_of_range` outside `int`). -/
+def stoi (v : List UInt8) : Option Int :=
+  let p := stoiSign (v.dropWhile isSpace)
+  let ds := p.2.takeWhile isDigit
+  if ds.isEmpty then none else
+  let n := digitsVal ds
+  if p.1 then (if n > 2 ^ 31 then none else some (- (Int.ofNat n)))
+  else (if n > 2 ^ 31 - 1 then none else some (Int.ofNat n))
+
+/-- `host.port = <int>`: implicit conversion `int` → `uint16_t` (url.cpp:218) -/
+def toU16 (i : Int) : Nat := (i % 65536).toNat
+
+/-- `StringToUrlHost(str, host)` on a default-constructed `host`: the return value and the object as left behind (fields
+assigned before a failing `UrlDecode` / `std::stoi` keep their new values) -/
+def parseHost (s : List UInt8) : Bool × Host :=
+  let h : Host := {}
+  -- user[:password]@
+  let part1 : Option (Host × Nat) :=
+    match find 64 s with
+    | none => some (h, 0)
+    | some a =>
+      let userOnly : Option (Host × Nat) := (decodeOpt (s.take a)).map (fun u => ({ h with user := u, password := [] }, a + 1))
+      match find 58 s with
+      | none => userOnly
+      | some c =>
+        if c > a then userOnly
+        else match decodeOpt (s.take c) with
+          | none => none
+          | some u =>
+            match decodeOpt ((s.drop (c + 1)).take (a - c - 1)) with
+            | none => some ({ h with user := u }, s.length + 1)      -- marker: failed after `user` was assigned
+            | some p => some ({ h with user := u, password := p }, a + 1)
+  match part1 with
+  | none => (false, h)
+  | some (h1, start) =>
+    if start > s.length then (false, h1) else
+    match findFrom 58 s start with
+    | none =>
+      match decodeOpt (s.drop start) with
+      | none => (false, h1)
+      | some hs => (true, { h1 with host := hs, port := 0 })
+    | some c =>
+      match decodeOpt ((s.drop start).take (c - start)) with
+      | none => (false, h1)
+      | some hs =>
+        match stoi (s.drop (c + 1)) with
+        | none => (false, { h1 with host := hs })
+        | some i => (true, { h1 with host := hs, port := toU16 i })
+
+/-- decimal digits of a natural (`operator<<(uint16_t)`) -/
+def decimal (n : Nat) : List UInt8 :=
+  if n < 10 then [UInt8.ofNat (48 + n)] else decimal (n / 10) ++ [UInt8.ofNat (48 + n % 10)]
+
+/-- `UrlHostToString(host)` -/
+def hostToString (h : Host) : List UInt8 :=
+  (if h.user.isEmpty then [] else h.user ++ (if h.password.isEmpty then [] else 58 :: h.password) ++ [64])
+    ++ h.host ++ (if h.port = 0 then [] else 58 :: decimal h.port)
+
 end Tbox.C19.Url
